@@ -68,6 +68,7 @@ fn do_replay<K: framework::Check>(k: &K, rf: &ReplayFile, quiet: bool, strict: b
 
 fn main() {
     panics::install();
+    tracesub::install_global();
     let args: Vec<String> = std::env::args().skip(1).collect();
     if args.is_empty() {
         usage();
